@@ -322,6 +322,7 @@ func checkC13(p *Prog, r *Report) {
 	// from the slots behind them, whose content depends on the layout's buffer (shared with C04.R5)
 	c04LoadYear(p, r, "C13.year-lookup")
 	lostWrites(p, r, "C13.lost-writes")
+	c13MeasurementIdFilter(p, r)
 }
 
 func short(k string) string { return strings.TrimPrefix(k, "hermes.") }
@@ -1318,4 +1319,90 @@ func lostWrites(p *Prog, r *Report, rule string) {
 		})
 	}
 	r.Ob("lost-write:scanned", "-", nMeth > 0, fmt.Sprintf("%d methods scanned, %d stores into fields of a receiver", nMeth, nStore))
+}
+
+// ---------------------------------------------------------------- measurement readers select by equality of the id
+
+// c13MeasurementIdFilter: both measurement readers take the records of ONE identifier (field, plot, soil id or
+// "ALLE").  A record is counted (the measurement counter advances) only under a condition that compares an identifier
+// read from the record with the requested one for EQUALITY — in an enclosing if, or in the init/condition/post of an
+// enclosing loop.  A prefix test may precede it as a cheap filter but cannot replace it: "10" would also take the
+// records of "100".
+func c13MeasurementIdFilter(p *Prog, r *Report) {
+	r.Rule("C13.measurement-id", "both measurement readers count a record only under an equality comparison with the requested identifier (a prefix or substring test alone would also accept the records of a longer identifier)", 2)
+	for _, key := range []string{"hermes.ExtractMeasuredDataTxt", "hermes.ExtractMeasuredDataCSV"} {
+		fi := p.Funcs[key]
+		if fi == nil {
+			r.Ob("id-filter:"+short(key), "-", false, "reader not found")
+			continue
+		}
+		info := fi.Pkg.TypesInfo
+		// the requested identifier: the string parameter that is compared; by position (3rd parameter) and type
+		var want types.Object
+		n := 0
+		for _, f := range fi.Decl.Type.Params.List {
+			for _, nm := range f.Names {
+				n++
+				if o := info.Defs[nm]; o != nil && n == 3 {
+					if b, ok := o.Type().Underlying().(*types.Basic); ok && b.Kind() == types.String {
+						want = o
+					}
+				}
+			}
+		}
+		if want == nil {
+			r.Ob("id-filter:"+short(key), p.Pos(fi.Decl.Pos()), false, "the requested-identifier parameter (third parameter, a string) was not found")
+			continue
+		}
+		hasEq := func(n ast.Node) bool {
+			if n == nil {
+				return false
+			}
+			f := false
+			ast.Inspect(n, func(m ast.Node) bool {
+				if be, ok := m.(*ast.BinaryExpr); ok && be.Op == token.EQL {
+					for _, side := range []ast.Expr{be.X, be.Y} {
+						if id, ok := ast.Unparen(side).(*ast.Ident); ok && info.Uses[id] == want {
+							f = true
+						}
+					}
+				}
+				return true
+			})
+			return f
+		}
+		nInc, okAll := 0, true
+		pos := p.Pos(fi.Decl.Pos())
+		ast.Inspect(fi.Decl.Body, func(m ast.Node) bool {
+			inc, ok := m.(*ast.IncDecStmt)
+			if !ok || inc.Tok != token.INC {
+				return true
+			}
+			se, ok := inc.X.(*ast.SelectorExpr)
+			if !ok || se.Sel.Name != "NMESS" {
+				return true
+			}
+			nInc++
+			pos = p.Pos(inc.Pos())
+			path := nodePath(fi.Decl.Body, inc)
+			eq := false
+			for i := 0; i+1 < len(path); i++ {
+				switch t := path[i].(type) {
+				case *ast.IfStmt:
+					if path[i+1] == ast.Node(t.Body) && hasEq(t.Cond) {
+						eq = true
+					}
+				case *ast.ForStmt:
+					if path[i+1] == ast.Node(t.Body) && (hasEq(t.Init) || hasEq(t.Cond) || hasEq(t.Post)) {
+						eq = true
+					}
+				}
+			}
+			if !eq {
+				okAll = false
+			}
+			return true
+		})
+		r.Ob("id-filter:"+short(key), pos, nInc > 0 && okAll, fmt.Sprintf("%d site(s) count a record; each lies under an equality comparison with the requested identifier %s: %v", nInc, want.Name(), nInc > 0 && okAll))
+	}
 }
